@@ -138,7 +138,7 @@ func c02ExactlyOnce(c *Ctx, r *Report) {
 			}
 			for _, ri := range returnsOf(f) {
 				if pdIdx >= 0 && pdIdx < len(ri.Vals) && isNilConst(ri.Vals[pdIdx]) {
-					if !instrDominates(calls[0], ri.Ret) {
+					if !instrDominates(calls[0], ri.Point()) {
 						ok = false
 						why = "a success return at " + posOf(c, ri.Ret) + " is reached without UpdateCDR: the reported usage is lost"
 					}
